@@ -361,3 +361,32 @@ pub fn src_flat_call(group: u64) {
     CLOSURE_CALLS.fetch_add(1, Ordering::SeqCst);
     record(Kind::SrcFlat, 0, 0, group);
 }
+
+/// Captured by every generated closure: a closure's captures are user values too - the library may clone a closure per
+/// worker and drop the clone anywhere, e.g. between a decision and the bookkeeping that publishes it. Dropping a token is a
+/// revocable yield point under schedules that make destructors yield points, and sleeps now and then in perturbed free runs.
+pub struct Tok;
+static TOK_DROPS: AtomicU64 = AtomicU64::new(0);
+impl Clone for Tok {
+    fn clone(&self) -> Self {
+        Tok
+    }
+}
+impl Drop for Tok {
+    fn drop(&mut self) {
+        if std::thread::panicking() {
+            return;
+        }
+        crate::sched::closure_drop_yield_point();
+        let seed = SPIN.load(Ordering::Relaxed);
+        if SPIN_MAX.load(Ordering::Relaxed) > 0 && seed & 1 == 1 {
+            let n = TOK_DROPS.fetch_add(1, Ordering::Relaxed);
+            let r = mix(seed as u64 ^ 0x70C, n);
+            match r % 5 {
+                0 => std::thread::sleep(std::time::Duration::from_micros(50 + (r >> 16) % 400)),
+                1 => std::thread::yield_now(),
+                _ => {}
+            }
+        }
+    }
+}
